@@ -51,7 +51,17 @@ def oracle(tier, rng, seeds):
         pairs.append((a, a))
     for i in range(4 if tier == 'quick' else 30):
         pairs.append((rng.choice(calls), rng.choice(calls)))
-    f1, s1 = effects.preemption_search(rng, ('auto', pairs, 6 if tier == 'quick' else 60), 60 if tier == 'quick' else 600)
+    # inventory-directed pairs: calls that both run through a function touching shared state (writes, or uses the committed inventory does not list)
+    ref = json.load(open(os.path.join(common.VERIF, 'shared_state.json')))
+    dpairs, crit, reach = effects.directed_pairs(rng, ref, 6 if tier == 'quick' else 10)
+    f0, s0 = ([], {'preemption_points': 0})
+    if dpairs:
+        # every line event between a touch of the shared object and the end of that frame (callees included), B running through the same code
+        f0, s0 = effects.preemption_search(rng, dpairs, 400 if tier == 'quick' else 3000, hot=crit, only_hot=True, stop_after=1)
+    f1, s1 = effects.preemption_search(rng, ('auto', pairs, 6 if tier == 'quick' else 60), 60 if tier == 'quick' else 600, hot=crit)
+    f1 = f0 + f1
+    s1['preemption_points'] += s0['preemption_points']
+    s1['directed_pairs'] = len(dpairs); s1['directed_points'] = s0['preemption_points']; s1['hot_functions'] = reach
     for f in f1:
         fails.append(Failure(f['what'], {'kind': 'preempt', 'A': f['A'], 'B': f['B'], 'k': f['k']}))
     f2, s2 = effects.thread_soak(rng, 120 if tier == 'quick' else 1000, 8, 2 if tier == 'quick' else 4)
